@@ -254,6 +254,10 @@ void ezc3d::c3d::parameter(const std::string &groupName, const ezc3d::Parameters
     if (!p.name().compare("")){
         throw std::invalid_argument("Parameter must have a name");
     }
+    if (p.type() == ezc3d::DATA_TYPE::NONE){
+        // Checked before the group is looked for, so a refused parameter does not leave a new empty group behind
+        throw std::runtime_error("Data type is not set");
+    }
 
     size_t idx;
     try {
